@@ -283,6 +283,9 @@ func (a *EngineAPI) NewPayloadV4(ctx context.Context, data engine.ExecutableData
 	}
 	e.mu.Lock()
 	defer e.mu.Unlock()
+	if _, ok := e.Known[data.BlockHash]; ok { // already imported (e.g. the genesis block, or a block re-announced)
+		return engine.PayloadStatusV1{Status: engine.VALID, LatestValidHash: &data.BlockHash}, nil
+	}
 	// a well-behaved engine re-computes the hash and rejects inconsistent payloads
 	var br common.Hash
 	if beaconRoot != nil {
